@@ -69,6 +69,8 @@ func main() {
 			genC12(rng, *n, *tier)
 		case "C13":
 			genC13(rng, *n, *tier)
+		case "C14":
+			genC14(rng, *n, *tier)
 		case "C17":
 			genC17(rng, *n, *tier)
 		case "C19":
